@@ -84,6 +84,29 @@ type Sim struct {
 	SchedHash      uint64
 	Probes         map[string]int64
 	MaxTasks       int
+	EvHash         uint64 // canonical event-log hash: every disk event with its bytes, every reply
+}
+
+func (s *Sim) logEvent(kind string, a string, n int64, data []byte) {
+	h := s.EvHash
+	if h == 0 {
+		h = 14695981039346656037
+	}
+	mix := func(b byte) { h ^= uint64(b); h *= 1099511628211 }
+	for i := 0; i < len(kind); i++ {
+		mix(kind[i])
+	}
+	mix(0xfe)
+	for i := 0; i < len(a); i++ {
+		mix(a[i])
+	}
+	for i := 0; i < 8; i++ {
+		mix(byte(n >> (8 * uint(i))))
+	}
+	for _, b := range data {
+		mix(b)
+	}
+	s.EvHash = h
 }
 
 // Gen is one process generation.
@@ -135,6 +158,8 @@ func (s *Sim) Run(body func(g *Gen)) (*Gen, simrt.Result) {
 	g := &Gen{S: s, W: w}
 	w.FSHandler = func(ev *simrt.FSEvent) {
 		s.FS[simrt.FSKindName(ev.Kind)+":"+fileClass(ev.Path)]++
+		rel, _ := filepath.Rel(s.Dir, ev.Path)
+		s.logEvent(simrt.FSKindName(ev.Kind), rel, ev.Off^(ev.Step<<20), ev.Data)
 		if s.OnFS != nil {
 			s.OnFS(g, ev)
 		}
